@@ -134,7 +134,7 @@ fn handle_xinfo_groups(storage: &Arc<StorageEngine>, db: usize, parts: &[RespFra
     let stream = match storage.get(db, key)? {
         GetResult::Found(Value::Stream(stream)) => stream,
         GetResult::Found(_) => return Ok(RespFrame::error("WRONGTYPE Operation against a key holding the wrong kind of value")),
-        _ => return Ok(RespFrame::Array(Some(Vec::new()))),
+        _ => return Ok(RespFrame::error("ERR no such key")),
     };
     
     // Get all groups
@@ -190,7 +190,7 @@ fn handle_xinfo_consumers(storage: &Arc<StorageEngine>, db: usize, parts: &[Resp
     let stream = match storage.get(db, key)? {
         GetResult::Found(Value::Stream(stream)) => stream,
         GetResult::Found(_) => return Ok(RespFrame::error("WRONGTYPE Operation against a key holding the wrong kind of value")),
-        _ => return Ok(RespFrame::Array(Some(Vec::new()))),
+        _ => return Ok(RespFrame::error("ERR no such key")),
     };
     
     // Get the consumer group
@@ -434,13 +434,13 @@ fn handle_xgroup_delconsumer(storage: &Arc<StorageEngine>, db: usize, parts: &[R
     let stream = match storage.get(db, key)? {
         GetResult::Found(Value::Stream(stream)) => stream,
         GetResult::Found(_) => return Ok(RespFrame::error("WRONGTYPE Operation against a key holding the wrong kind of value")),
-        _ => return Ok(RespFrame::Integer(0)),
+        _ => return Ok(RespFrame::error("ERR The XGROUP subcommand requires the key to exist. Note that for CREATE you may want to use the MKSTREAM option to create an empty stream automatically.")),
     };
     
     // Get the consumer group
     let group = match stream.get_consumer_group(&group_name) {
         Some(group) => group,
-        None => return Ok(RespFrame::Integer(0)),
+        None => return Ok(RespFrame::error(format!("NOGROUP No such consumer group {} for stream", group_name))),
     };
     
     // Delete the consumer and return pending count
@@ -613,6 +613,22 @@ pub fn handle_xreadgroup(storage: &Arc<StorageEngine>, db: usize, parts: &[RespF
     
     let num_keys = remaining / 2;
     let mut results = Vec::new();
+    
+    // Every key must hold a stream that has the group, before anything is delivered
+    for j in 0..num_keys {
+        if let RespFrame::BulkString(Some(bytes)) = &parts[i + j] {
+            let has_group = match storage.get(db, bytes.as_ref())? {
+                GetResult::Found(Value::Stream(stream)) => stream.get_consumer_group(&group_name).is_some(),
+                GetResult::Found(_) => return Ok(RespFrame::error("WRONGTYPE Operation against a key holding the wrong kind of value")),
+                _ => false,
+            };
+            if !has_group {
+                return Ok(RespFrame::error(format!(
+                    "NOGROUP No such key '{}' or consumer group '{}' in XREADGROUP with GROUP option",
+                    String::from_utf8_lossy(bytes), group_name)));
+            }
+        }
+    }
     
     for j in 0..num_keys {
         let key = match &parts[i + j] {
@@ -943,7 +959,7 @@ pub fn handle_xclaim(storage: &Arc<StorageEngine>, db: usize, parts: &[RespFrame
     let stream = match storage.get(db, key)? {
         GetResult::Found(Value::Stream(stream)) => stream,
         GetResult::Found(_) => return Ok(RespFrame::error("WRONGTYPE Operation against a key holding the wrong kind of value")),
-        _ => return Ok(RespFrame::Array(Some(Vec::new()))),
+        _ => return Ok(RespFrame::error(format!("NOGROUP No such key '{}' or consumer group '{}'", String::from_utf8_lossy(key), group_name))),
     };
     
     // Claim messages
